@@ -48,6 +48,8 @@ class BloomDriver:
         self.obj = None
         self.events = set()
         self.growths = 0
+        self.nops = 0
+        self._nh = None
         self.ok = self._create()
 
     # ------------------------------------------------------------------------------------
@@ -78,6 +80,13 @@ class BloomDriver:
             return False
         return True
 
+    def _hashes(self, key):
+        """hashes for the *_alt entry points of the expanding filter (which has no hashes() method of its own)"""
+        from probables.hashes import default_fnv_1a
+        if self._nh is None:
+            self._nh = self.B(self.est, self.fpr).number_hashes
+        return (self.hf or default_fnv_1a)(key, self._nh)
+
     def close(self):
         if self.kind == "ondisk" and self.obj is not None:
             try:
@@ -100,6 +109,9 @@ class BloomDriver:
                 r = ctx.call(self._o("member"), o.check, k)
                 ctx.check(self._o("member"), r is True, lambda: f"{what}: check({k!r}) -> {r!r} for an added key")
                 ctx.check(self._o("member"), (k in o) is True, lambda: f"{what}: {k!r} in filter is False")
+                hs = self._hashes(k) if self.kind == "expanding" else o.hashes(k)
+                ctx.check(self._o("member"), ctx.call(self._o("member"), o.check_alt, hs) is True,
+                          lambda: f"{what}: check_alt(hashes({k!r})) is not True for an added key")
         if self._o("counter"):
             ea = o.elements_added
             ctx.check(self._o("counter"), ea == self.count,
@@ -128,14 +140,23 @@ class BloomDriver:
         if kind in ("add", "addf"):
             k = self.pool[op[1] % len(self.pool)]
             force = kind == "addf" and self.kind == "expanding"
+            self.nops += 1
+            alt = self.nops % 3 == 0  # every third insertion goes through the precomputed-hash entry point
             if self.kind == "expanding":
                 exp_before = o.expansions
-                ctx.call(anyo, o.add, k, force)
+                if alt:
+                    ctx.call(anyo, o.add_alt, self._hashes(k), force)
+                else:
+                    ctx.call(anyo, o.add, k, force)
                 if o.expansions > exp_before:
                     self.growths += 1
                     self.events.add("growth")
+            elif alt:
+                ctx.call(anyo, o.add_alt, ctx.call(anyo, o.hashes, k))
             else:
                 ctx.call(anyo, o.add, k)
+            if alt:
+                self.events.add("alt_api")
             self.keys.append(k)
             self.count += 1
             ctx.op("add", op[1] % len(self.pool), force)
